@@ -7,20 +7,21 @@ Values are duplicate-free (`JV.WF`) where object keys matter.
 Proved in full:
 * `cmp_total_order` (+ `cmp_refl/cmp_swap/cmp_trans`, `cmp_kind_chain`, `cmp_arr_cons`): jq's order is
   a total preorder on all duplicate-free values (Proof/JqOrder.lean);
-* `sort_sorted_perm`, `unique_dedup_sorted`;
+* `sort_sorted_perm`, `unique_dedup_sorted`, `cmp_eq_iff_eqv` (equal under the order = jq's `==`,
+  Proof/JqEqv.lean) and `unique_exact`;
 * `getpath_defined`, `setpath_getpath_id`, `getpath_setpath`, `setpath_frame` for every `p ∈ paths v`
   (Proof/JqPaths.lean), and the one-step object versions;
-* `to_from_entries` for duplicate-free objects;
+* `to_from_entries` for duplicate-free objects; `tostream_fromstream` (Proof/JqStream.lean);
 * `base64_round_trip`, `uri_round_trip` for all byte strings (Proof/JqCodec.lean).
 Not proved here (evaluated by the C25 correspondence on generated values instead):
-`tojson_fromjson` (printer/reader round trip over the carrier's print/parse law),
-`tostream_fromstream`, and "`cmp a b = eq` iff `eqv a b`" (antisymmetry is proved in the form
-`cmp b a = (cmp a b).swap`).
+`tojson_fromjson` (printer/reader round trip over the carrier's print/parse law).
 -/
 import SuccinctlyVerif.Model.Jq
 import SuccinctlyVerif.Proof.JqOrder
 import SuccinctlyVerif.Proof.JqCodec
 import SuccinctlyVerif.Proof.JqPaths
+import SuccinctlyVerif.Proof.JqEqv
+import SuccinctlyVerif.Proof.JqStream
 namespace SV.Props.C25
 open SV.Jq
 variable {N : Type} [NumOps N]
@@ -273,6 +274,28 @@ theorem unique_dedup_sorted (xs : List (JV N)) (hx : ∀ x ∈ xs, x.WF) :
   obtain ⟨h1, h2, h3⟩ := dedupFirst_strict (JV.sort xs) hw (sortBy_sorted_on cmp_preorder xs hx)
   exact ⟨h1, fun u hu => hp.mem_iff.mp (h2 u hu), fun a ha => h3 a (hp.mem_iff.mpr ha)⟩
 
+/-- **antisymmetry up to `==`**: on duplicate-free values "equal under the order" is jq's `==`. -/
+theorem cmp_eq_iff_eqv (a b : JV N) (ha : a.WF) (hb : b.WF) : JV.cmp a b = .eq ↔ JV.eqv a b = true :=
+  SV.Jq.cmp_eq_iff_eqv a b ha hb
+
+/-- **`unique` exactly**: strictly increasing, no two members `==`, every member occurs in the input,
+and every input element is `==` to a member. -/
+theorem unique_exact (xs : List (JV N)) (hx : ∀ x ∈ xs, x.WF) :
+    StrictSorted (JV.unique xs) ∧ (JV.unique xs).Pairwise (fun a b => JV.eqv a b = false) ∧
+      (∀ u ∈ JV.unique xs, u ∈ xs) ∧ (∀ a ∈ xs, ∃ u ∈ JV.unique xs, JV.eqv u a = true) := by
+  obtain ⟨h1, h2, h3⟩ := unique_dedup_sorted xs hx
+  refine ⟨h1, ?_, h2, ?_⟩
+  · refine List.Pairwise.imp_of_mem ?_ h1
+    intro a b ha hb hlt
+    cases he : JV.eqv a b with
+    | false => rfl
+    | true =>
+      have := (SV.Jq.cmp_eq_iff_eqv a b (hx a (h2 a ha)) (hx b (h2 b hb))).mpr he
+      rw [this] at hlt; cases hlt
+  · intro a ha
+    obtain ⟨u, hu, hc⟩ := h3 a ha
+    exact ⟨u, hu, (SV.Jq.cmp_eq_iff_eqv u a (hx u (h2 u hu)) (hx a ha)).mp hc⟩
+
 end total
 
 /-! ### object fields, one-step paths, entries -/
@@ -395,6 +418,17 @@ theorem setpath_frame (v : JV N) (hw : v.WF) (p q : List (JV N)) (hp : p ∈ v.p
 
 end pathlaws
 
+/-! ### streams -/
+section streams
+variable [LawfulNum N]
+
+/-- **`tostream_fromstream`**: `fromstream(tostream)` reproduces every duplicate-free value (one output,
+the value itself). -/
+theorem tostream_fromstream (v : JV N) (hw : v.WF) : JV.fromstream (JV.tostream v) = .ok [v] :=
+  SV.Jq.tostream_fromstream v hw
+
+end streams
+
 /-! ### encoders / decoders -/
 
 /-- **`base64_round_trip`**: decoding the `@base64` text of any byte string gives the bytes back. -/
@@ -440,9 +474,11 @@ instance : LawfulNum Int where
     have := Std.TransCmp.isLE_trans (cmp := (compare : Int → Int → Ordering)) h1' h2'
     intro hgt; simp_all [Ordering.isLE]
   cmp_eq_iff a b := by simp [NumOps.cmp, Std.LawfulEqCmp.compare_eq_iff_eq]
+  eq_iff_cmp a b := by simp [NumOps.eq, NumOps.cmp, Std.LawfulEqCmp.compare_eq_iff_eq]
   toInt_ofInt i := rfl
   ofInt_inj i j h := h
   isNan_ofInt _ := rfl
+  isInf_ofInt _ := rfl
   floor_ofInt _ := rfl
 
 example : ([.str "a", JV.ofNat 0] : List (JV Int)) ∈ (JV.obj [("a", .arr [.null])] : JV Int).paths := by
